@@ -387,8 +387,9 @@ Qed.
 
 Theorem repairs_conservative :
   (forall x a b, a < b -> mf_lins_orig RO x a b = mf_lins RO x a b /\ mf_linz_orig RO x a b = mf_linz RO x a b) /\
-  (forall x a b c, b < c -> mf_tri_orig RO x a b c = mf_tri RO x a b c).
-Proof. exact (conj lins_orig_agrees tri_orig_agrees). Qed.
+  (forall x a b c, b < c -> mf_tri_orig RO x a b c = mf_tri RO x a b c) /\
+  (forall x a b, a <= b -> mf_s_orig RO x a b = mf_s RO x a b /\ mf_z_orig RO x a b = mf_z RO x a b).
+Proof. exact (conj lins_orig_agrees (conj tri_orig_agrees sz_orig_agrees)). Qed.
 
 Theorem cap_operators : is_cap (fuzzy_cap RO) /\ is_cap (fuzzy_cap_algebra RO) /\ is_cap (fuzzy_cap_bounded RO).
 Proof. exact (conj cap_is_cap (conj cap_algebra_is_cap cap_bounded_is_cap)). Qed.
